@@ -1,6 +1,7 @@
 import HdVerif.Proofs.PMap
 import HdVerif.Proofs.PMapTie
 import HdVerif.Proofs.PMapRead
+import HdVerif.Proofs.PMapVolume
 import HdVerif.Props.C07
 /-! # C19  Parametric maps and secondary captures store the given pixels
 
@@ -361,6 +362,38 @@ theorem element_holds_bit_patterns (x : PMInput) (o : PMObject) (h : build x = .
     ofLeBytes ((o.pixelData.drop ((f * (x.r * x.c) + p) * x.itemsize)).take x.itemsize) = bits (f / x.m) p (f % x.m) :=
   PMap.element_holds_bit_patterns x o h bits hcell hb f p hf hp
 
+/-! ## the volume (`Image.get_volume`; `Model/PMapVolume.lean`, `Proofs/PMapVolume.lean`) -/
+
+/- Full statement: for every admitted map and every read state; here integer maps in a native transfer syntax (float maps:
+   `get_volume` fails, open finding) and with all pixel transforms off (with the real-world transform every frame goes through the
+   pixel transform of ITS index with the caller's selector: `tie_read_forwarding` (T19f) + `read_applies_attached_mapping_partial`;
+   oracle `rwvm-volume`). -/
+/-- **The voxels of the volume are the stored pixels.**  `getVolume` = `Image.get_volume` on a parametric map in the patient
+coordinate system: the refusal of positions that do not identify frames, C11's model of the stack assembly `Stack.assembleFrames`
+(hand-written there, tied by C11's streams and theorems; used unchanged) on the planes' Image Position (Patient), and the frame
+loop of `_get_pixels_by_frame` with C05's REGENERATED frame fetch (T1c `pixelsRawArgs`, `pixelsCacheIndex`, `pixelsSingleGuard`).
+For a single-channel map whose planes have distinct positions: whatever the assembly decides (spacing, origin, `n` slices, plane
+`i` to slice `vp[i]`), the volume has `n` slices, slice `vp[i]` holds exactly the cells of plane `i` -- voxel `(vp[i], r, c)` is
+item `r * columns + c` of `pixel_array[i]` -- whether the pixel array was decoded before or not, and every slice that no plane is
+assigned to is blank.  (Which slice that is -- the rank of the plane along the normal, independent of the frame order -- is C11's
+`multiframe_assembly_order_independent` / `multiframe_gaps_assembly_order_independent`.) -/
+theorem volume_voxel_is_stored_pixel_partial (x : PMInput) (o : PMObject) (h : build x = .ok o) (_hts : x.ts ∈ nativeSyntaxes)
+    (hel : o.element = "PixelData") (hw : CellsWF x) (hpos : 0 < x.r * x.c * x.itemsize) (cached : Bool) (ori : List Rat)
+    (hint rtol atol : Option Rat) (am : Bool) (hm : x.m = 1) (hnd : (positionRows x).Nodup) (sp : Rat) (origin : List Rat) (n : Int)
+    (vp : List Int) (ha : Stack.assembleFrames (positionRows x) ori hint rtol atol am = .ok (sp, origin, n, vp))
+    (hvl : vp.length = x.n) (hvn : vp.Nodup) (hvr : ∀ v ∈ vp, 0 ≤ v ∧ v < n) :
+    ∃ slices, getVolume x o cached ori hint rtol atol am = .ok (sp, origin, slices) ∧ slices.length = n.toNat ∧
+      (∀ i (hi : i < x.n), ∃ v, vp[i]? = some v ∧ slices[v.toNat]? = some (some (plane x i 0))) ∧
+      (∀ s, s < n.toNat → (s : Int) ∉ vp → slices[s]? = some none) :=
+  getVolume_build x o h hel hw hpos cached ori hint rtol atol am hm hnd sp origin n vp ha hvl hvn hvr
+
+/-- a map with several channels (every position carries several frames) or with planes at equal positions has no volume:
+`get_volume` refuses ("positions do not uniquely identify frames") -/
+theorem volume_refused_when_positions_shared (x : PMInput) (o : PMObject) (cached : Bool) (ori : List Rat)
+    (hint rtol atol : Option Rat) (am : Bool) (hbad : x.m ≠ 1 ∨ ¬ (positionRows x).Nodup) :
+    getVolume x o cached ori hint rtol atol am = .error .runtime :=
+  getVolume_refuses_shared_positions x o cached ori hint rtol atol am hbad
+
 /-! ## secondary captures -/
 
 /-- **The image pixel module of `SCImage`** (regenerated decision block) accepts exactly `SCAccepted`: bool
@@ -630,5 +663,20 @@ example (o : PMObject) (h : build exampleInputBytes = .ok o) (hel : o.element = 
         rcases hb with rfl | rfl <;> omega)
     (Or.inr rfl) (by decide) 1 0 2
 example : (plane exampleInputBytes 1 0).flatten = [5, 0, 7, 0] ∧ (plane exampleInputBytes 1 0).map cellValue = [5, 7] := by decide
+/-- a 3-plane single-channel map with planes at z = 5, 3, 4 (stored out of order): the assembly puts them into slices 0, 2, 1;
+the theorem applies, and the model computes the volume -/
+def volumeInput : PMInput :=
+  { exampleInput with
+    ndim := 3, n := 3, m := 1, nested := false, nMappingLists := 1, nPositions := 3,
+    cell := fun i k _ => [10 * i + k, 0],
+    pos := fun i => [[0, 0, (if i = 0 then 5 else if i = 1 then 3 else 4)]] }
+example : Stack.assembleFrames (positionRows volumeInput) [1, 0, 0, 0, 1, 0] none none none false = .ok (1, [0, 0, 5], 3, [0, 2, 1]) := by
+  decide +kernel
+example : (build volumeInput).toOption.bind (fun o =>
+      (getVolume volumeInput o false [1, 0, 0, 0, 1, 0] none none none false).toOption.map (fun r => r.2.2)) =
+    some [some [[0, 0], [1, 0]], some [[20, 0], [21, 0]], some [[10, 0], [11, 0]]] := by decide +kernel
+example (o : PMObject) (h : build volumeInput = .ok o) (hel : o.element = "PixelData") :=
+  volume_voxel_is_stored_pixel_partial volumeInput o h (by decide) hel (by intro i k j; rfl) (by decide) true [1, 0, 0, 0, 1, 0]
+    none none none false rfl (by decide +kernel) 1 [0, 0, 5] 3 [0, 2, 1] (by decide +kernel) rfl (by decide) (by decide)
 
 end HdVerif.C19
